@@ -1018,3 +1018,121 @@ TF["topk"] = _topk
 TF["Size"] = lambda x: tuple(x)
 
 TM["numpy"] = lambda t: t   # .numpy(): same values and dtype (A11)
+
+
+# ---------------------------------------------------------------------------------------------
+# aliases and simple derived operations (documented torch definitions in terms of operations already in the table):
+# they keep a semantics-preserving rewrite of the repository within reach of the interpreter
+# ---------------------------------------------------------------------------------------------
+def _alias(name, fn, method=True, function=True):
+    if method and name not in TM:
+        TM[name] = fn
+    if function and name not in TF:
+        TF[name] = fn
+
+
+_alias("tile", lambda t, *dims: _repeat(t, *(dims[0] if len(dims) == 1 and isinstance(dims[0], (tuple, list)) else dims)))
+_alias("take_along_dim", lambda t, indices, dim: ops.gather(t, dim, indices))
+_alias("movedim", lambda t, a, b: ops.transpose(t, a, b) if abs(norm_dim(a, t.rank) - norm_dim(b, t.rank)) <= 1 else (_ for _ in ()).throw(Unsupported("movedim over more than one position")))
+_alias("swapaxes", lambda t, a, b: ops.transpose(t, a, b))
+_alias("swapdims", lambda t, a, b: ops.transpose(t, a, b))
+_alias("broadcast_to", lambda t, *s: ops.expand(t, *s))
+_alias("clamp_min", lambda t, min=None: ops.clamp(t, min, None))
+_alias("clamp_max", lambda t, max=None: ops.clamp(t, None, max))
+_alias("relu", lambda t: ops.clamp(t, 0, None))
+FN.setdefault("relu", TF["relu"])
+_alias("square", lambda t: binop("mul", t, t))
+_alias("reciprocal", lambda t: binop("truediv", 1.0, t))
+_alias("true_divide", lambda a, b: binop("truediv", a, b))
+_alias("sign", lambda t: ew(lambda x: z3.If(x > 0, 1, z3.If(x < 0, -1, 0)), [t], out_dtype=t.dtype if t.dtype != "b" else "i"))
+_alias("concatenate", TF["cat"], method=False)
+_alias("vstack", lambda ts: ops.cat([x if x.rank >= 2 else ops.unsqueeze(x, 0) for x in ts], 0), method=False)
+TM.setdefault("where", lambda cond, a, b: ops.where(cond, a, b))
+
+
+def _pow(t, e):
+    if isinstance(e, int) and 0 <= e <= 4:
+        r = None
+        for _ in range(e):
+            r = t if r is None else binop("mul", r, t)
+        return r if r is not None else ops.full(t.shape, 1.0) if T(t) else 1.0
+    if isinstance(e, float) and e == 0.5 and T(t):
+        return ops.uf_apply("sqrt", t)
+    raise Unsupported("pow with this exponent")
+
+
+_alias("pow", _pow)
+
+
+def _narrow(t, dim, start, length):
+    idx = [slice(None)] * t.rank
+    idx[norm_dim(dim, t.rank)] = slice(start, ops.simp_add(start, length))
+    return ops.getitem(t, tuple(idx))
+
+
+_alias("narrow", _narrow)
+
+
+def _select(t, dim, index):
+    idx = [slice(None)] * t.rank
+    idx[norm_dim(dim, t.rank)] = index
+    return ops.getitem(t, tuple(idx))
+
+
+_alias("select", _select)
+
+
+def _index_select(t, dim, index):
+    d = norm_dim(dim, t.rank)
+    idx = [slice(None)] * t.rank
+    idx[d] = index
+    return ops.getitem(t, tuple(idx))
+
+
+_alias("index_select", _index_select)
+
+
+def _floor(t):
+    return ew(lambda x: z3.ToReal(z3.ToInt(x)), [t], out_dtype="f") if t.dtype == "f" else t
+
+
+def _ceil(t):
+    return ew(lambda x: -z3.ToReal(z3.ToInt(-x)), [t], out_dtype="f") if t.dtype == "f" else t
+
+
+_alias("floor", _floor)
+_alias("ceil", _ceil)
+
+
+def _std(t, dim=None, unbiased=True, keepdim=False, correction=None):
+    return ops.uf_apply("sqrt", _var(t, dim, unbiased, keepdim, correction))
+
+
+_alias("std", _std)
+
+
+def _logsumexp(t, dim, keepdim=False):
+    ts = ops.to_dtype(t, "f").snap()
+    EXP = ops.UF["exp"]
+    w = mk(t.shape, "f", lambda I: EXP(ts(I)))
+    return ops.uf_apply("log", reduce("sum", w, dim, keepdim, label="logsumexp"))
+
+
+_alias("logsumexp", _logsumexp)
+
+
+def _log_softmax(t, dim=-1, dtype=None, **kw):
+    """x - logsumexp(x) along dim (finite entries; -inf entries are outside this definition: Unsupported via INF arithmetic)."""
+    return binop("sub", ops.to_dtype(t, "f"), _logsumexp(t, dim, keepdim=True))
+
+
+_alias("log_softmax", _log_softmax)
+FN.setdefault("log_softmax", _log_softmax)
+
+
+def _dot(a, b):
+    return reduce("sum", binop("mul", a, b), -1, label="dot")
+
+
+_alias("dot", _dot)
+_alias("outer", lambda a, b: binop("mul", ops.unsqueeze(a, 1), ops.unsqueeze(b, 0)))
